@@ -1501,6 +1501,36 @@ def run(tier, seed, replay=None):
                    f"judged); violations {len(viol)}, model differences {len(corr)}, crashes/hangs {stats['crashes']}; "
                    f"model outcomes {stats['model_outcome']}")
     from collections import Counter
+    # SP/UDP, the FIRST data datagram on a fresh endpoint (harness/r_udpfirst.c): the size rule must hold before the endpoint's
+    # receive buffer has been cut down to RECVMAXSZ (C11Net.never_over_recvmax is about every datagram, the first included)
+    if not replay:
+        try:
+            fexe = build.harness("r_udpfirst", ["r_udpfirst.c"])
+            fcases = [(100, 50, 50), (100, 100, 100), (100, 101, 101), (100, 5000, 5000), (2000, 1500, 30000), (2000, 1500, 1500),
+                      (2000, 3000, 100), (0, 40000, 40000), (64, 65, 64000), (1024, 1025, 1025), (1024, 1024, 60000)]
+            stats["udp_first"] = []
+            for rm_, decl, act in fcases:
+                r_ = core.run_stream([fexe, str(rm_), str(decl), str(act)], "", env=build.env(), timeout=60)
+                line = next((l for l in r_.lines if l.startswith("udpfirst ")), "")
+                m_ = re.search(r"cack=(\d) delivered=(-?\d+)", line)
+                why = None
+                if r_.rc != 0 or not m_:
+                    why = f"the probe crashed or did not report (exit {r_.rc}): {line[:120]} {r_.err[-400:]}"
+                else:
+                    got = int(m_.group(2))
+                    must_not = (rm_ > 0 and decl > rm_) or decl > act
+                    if got == -2:
+                        why = "the delivered bytes are not the bytes that were sent"
+                    elif must_not and got != -1:
+                        why = f"a first DATA datagram declaring {decl} bytes ({act} on the wire) was delivered as {got} bytes with RECVMAXSZ {rm_}"
+                    elif not must_not and got != decl and m_.group(1) == "1":
+                        why = f"a well-formed first DATA datagram of {decl} bytes was not delivered as such (got {got})"
+                stats["udp_first"].append(f"{rm_}/{decl}/{act}:" + ("BAD" if why else "ok"))
+                if why:
+                    viol.append({"kind": "SP/UDP first data datagram on a fresh endpoint: " + why, "cfg": f"udp:pull:{rm_}",
+                                 "lines": [f"r_udpfirst {rm_} {decl} {act}", line], "probe": "harness/r_udpfirst.c"})
+        except build.BuildError as e:
+            viol.append({"kind": "build of harness/r_udpfirst.c failed", "cfg": "udp:pull:0", "lines": [str(e)]})
     core.log(PROP, "violation kinds: " + json.dumps(Counter((x["kind"][:50] + "|" + x.get("cfg", "").split(":")[0]) for x in viol).most_common(12)))
     for c_ in corr[:int(os.environ.get("C11_DEBUG", "0"))]:
         ses = c_.get("session", {})
@@ -1579,7 +1609,7 @@ def run(tier, seed, replay=None):
                  "model_outcome": stats["model_outcome"], "impl_outcome": stats["impl_outcome"], "end_modes": stats["modes"],
                  "rcvmax": stats["rcvmax"], "pair_lost_on_disconnect": stats.get("lost_on_disconnect", 0),
                  "pair_second_connection_anomalies": stats.get("pair_second_connection_anomalies", 0),
-                 "udp_peer_limit": stats.get("udp_limit"), "udp6_scenarios_run": stats.get("udpx_run", []),
+                 "udp_first_datagram (rcvmax/declared/actual)": stats.get("udp_first", []), "udp_peer_limit": stats.get("udp_limit"), "udp6_scenarios_run": stats.get("udpx_run", []),
                  "udp6_scenarios_skipped": stats.get("udpx_skipped", []),
                  "udp": {"sessions": stats.get("udp_sessions", 0), "datagrams": stats.get("udp_datagrams", 0),
                          "payloads_delivered": stats.get("udp_delivered", 0), "flood_senders": stats.get("udp_flood_senders", 0),
